@@ -33,6 +33,9 @@ CLAIMED = {
  "C03": dict(text="CFG, both directions. Coq theorems prove for every program and every exit choice that after every pipeline stage nexts/prevs are exact "
                   "inverses, that every edge of the finished graph is a fall-through, a jump to the written label or a return merge, that returns and "
                   "exit ecalls have no successors, and that 'unreachable code' is reported only on nodes without predecessors (Props/C03.v). "
+                  "Props/C03lbl.v ties 'the written label' to the SOURCE: a label names the next instruction of the node stream (directives and further "
+                  "labels in between do not matter), the graph's instruction nodes are the source's instructions in order, and jumps, branches and calls "
+                  "go to that instruction (or its function entry) - from nothing but the success of the graph builder. "
                   "Props/C03dyn.v proves the converse: with the program-counter successor relation pc_succ written from the ISA and the label "
                   "definitions (never from the edges), every transfer out of a connected node is an edge (C03_transfers_are_edges, sharp case form "
                   "C03dyn_transfer_cases), every program-counter run from a program or function entry stays graph-reachable and no node on it is "
@@ -61,7 +64,7 @@ CLAIMED = {
                   "node's range is the hull from its statement's first to its last consumed token, nodes of different statements are disjoint and in "
                   "source order - except the two nodes of an expanded `lw rd, label`/`sw rs, label, rt`, which share one range (C09loc_node_range); every "
                   "INSTRUCTION statement consumes its mnemonic and operand tokens only - no newline, no comment - so its range is mnemonic through "
-                  "last operand (C09loc_node_range_tight; true of every form since the fix of the bare `jalr rs` quirk); every "
+                  "last operand (C09loc_node_range_tight, and C09loc_tree_node_range_tight for include trees; true of every form since the fix of the bare `jalr rs` quirk); every "
                   "parse error is located on a lexer item (C09loc_parse_error); and every location of every diagnostic (through the whole pipeline, by "
                   "the position-parametricity theorem) is in a file that was read, inside its text, with consistent line/column/offset, and is either "
                   "one token or the hull of one statement (C09loc_diagnostics, C09loc_tree_diagnostics). Two non-text locations are explicit "
@@ -72,7 +75,8 @@ CLAIMED = {
              technique="Coq proof (lexer state invariant; partial-correctness logic of the statement parser; pipeline provenance) + differential correspondence"),
  "C12": dict(text="Fixed point: Coq theorems prove that the value analysis result satisfies its equations over all predecessors whenever the pass returns (unconditional since the fix of its "
                   "early stop; before, the proof had forced the disjunct 'or the run changed nothing'), that "
-                  "value analysis and liveness never touch edges, nodes or functions, that ecall termination is idempotent, that the live sets satisfy "
+                  "value analysis and liveness never touch edges, nodes or functions, that ecall termination is idempotent, that on the pipeline's final graph the value equation holds at every node except those that lost a predecessor "
+                  "in the last ecall-termination step (exception shown necessary on the witness of the recorded finding), that the live sets satisfy "
                   "the exact equations and are reproduced by a re-run, and that the lints ignore u_def. Tied to available.rs/liveness.rs/"
                   "ecall_terminate.rs by stage dumps; the checker applies random sequences of extra pass runs to the implementation's finished graph "
                   "and requires facts, edges and diagnostics to stay identical. The sweep bound is NOT proved (it is false: see C06 known findings).",
@@ -192,17 +196,20 @@ CLAIMED = {
                   "FoldSpec of C08, byte-addressed little-endian memory, calls summarised by the calling convention, ecalls by the RARS table), that for ANY "
                   "graph whose facts satisfy the analysis equations and any execution of any length from an entry node inside the supported subset, every "
                   "constant / label-address / entry-value-plus-constant claim on a register or stack slot is true of the machine state before and after "
-                  "every node reached; corollary: the a7 value, stack offset and 'original value' facts the lints read are true. Proved by transfer "
+                  "every node reached; corollary: the a7 value, stack offset and 'original value' facts the lints read are true. For every graph the PIPELINE "
+                  "produces (C01_pipeline_claims) the equations and edge symmetry are not assumed but proved: every execution of the final graph is an "
+                  "execution of the graph after the last value analysis, which satisfies the equations unconditionally (C12_avail_fix). Proved by transfer "
                   "soundness for every node kind and all seven rules, meet soundness, induction over executions. Tied to available.rs/gen_kill.rs by "
                   "comparing all value facts after each of the three runs of the pass; a concrete interpreter executes every program over the "
                   "implementation's own graph and checks each claim against the machine (this oracle found defect D41).",
-             design="8/C01", note=NOTE + "Hypotheses: AvailEqns (C12), Sym (C03), no edge into an entry node, registers<32 / 32-bit immediates (typing), no CSR instructions, "
+             design="8/C01", note=NOTE + "Hypotheses for arbitrary graphs: AvailEqns (C12), Sym (C03) - both discharged for pipeline outputs in Props/C01pipe.v; no edge into an entry node, registers<32 / 32-bit immediates (typing), no CSR instructions, "
                   "no RV64-only forms, jalr only as ret, non-sp stores stay 2 MiB from the entry sp, sp-relative stores and calls happen at a known stack position "
                   "within a 1 MiB window. Nine value-analysis defects were repaired first (fix commits); CSR facts remain outside the theorem.",
              technique="Coq proof (abstract-interpretation soundness against an ISA-level machine) + differential correspondence + concrete-execution oracle"),
  "C06": dict(text="Termination/no crash: Coq theorems prove that lexing any text and parsing any include graph over the in-memory reader (any faults) always "
-                  "return (no panic site reachable, fuel suffices), that the pipeline and lints never panic, and that only the two dataflow loops can fail "
-                  "to return. The rest of the property is explored: every input class (soup, raw Unicode, extreme literals and sizes, include graphs, "
+                  "return (no panic site reachable, fuel suffices), that the pipeline and lints never panic, that only the two dataflow loops can fail "
+                  "to return, and that on graphs without back edges both loops DO return within a linear number of sweeps (value analysis: 2 + number of "
+                  "loads; liveness on call-free DAGs: 2 + n; a constant bound is refuted for both by computed programs) with results that satisfy their equations. The rest of the property is explored: every input class (soup, raw Unicode, extreme literals and sizes, include graphs, "
                   "self-inclusion on disk) through the library in debug and release builds and the rva binary in ten flag combinations under a watchdog. "
                   "The dataflow loops do NOT always terminate: recorded as known findings (class = the pass that hangs AND the model of that pass running out of fuel "
                   "on the same input); a hang on which the model terminates, and any other hang/panic, is a violation.",
